@@ -11,6 +11,7 @@ with append / extend, a side-effect comprehension `[L.extend(x) for x in xs]`, `
     ("flat", it, layout)        for every element of `it`, in order: the parts of `layout`
     ("rep", layout, n)          `layout` repeated n times
     ("zipflat", (a, b, ...))    a[0], b[0], ..., a[1], b[1], ...
+    ("cond", test, l1, l2)      layout l1 when test holds, else l2 (conditional expression or if / else statement alike)
 
 `it` is ("iter", text) or ("enum", text) (enumerate whose index is used).  Loop variables are renamed to va0, va1, ...
 (vb0 ... one level down) and every expression is the canonical text of its resolved term (sa/term.py).  Rules compare
@@ -93,6 +94,12 @@ class Layouts:
                 else:
                     parts += (("item", self.text(e, at, env)),)
             return parts
+        if isinstance(node, ast.IfExp):
+            a = self.layout_of(node.body, at, env, depth)
+            b = self.layout_of(node.orelse, at, env, depth)
+            if a is UNKNOWN or b is UNKNOWN:
+                return UNKNOWN
+            return a if a == b else (("cond", self.text(node.test, at, env), a, b),)
         if isinstance(node, ast.Name) and node.id in self.state and node.id not in env:
             return self.state[node.id]
         if isinstance(node, ast.Attribute) and str(U(node)) in self.state:
@@ -264,8 +271,21 @@ class Layouts:
                 self._run(st.orelse)
                 b = self.state
                 # a list built on one arm only keeps its layout (whether it exists at all is not this engine's question)
-                self.state = {k: (a[k] if k not in b else b[k] if k not in a else a[k] if a[k] == b[k] else UNKNOWN)
-                              for k in set(a) | set(b)}
+                def merge(k):
+                    if k not in b:
+                        return a[k]
+                    if k not in a:
+                        return b[k]
+                    if a[k] == b[k]:
+                        return a[k]
+                    if a[k] is UNKNOWN or b[k] is UNKNOWN:
+                        return UNKNOWN
+                    # both arms extend a common prefix: the difference is a conditional part
+                    pre = before.get(k, ()) if before.get(k, ()) is not UNKNOWN else ()
+                    if a[k][:len(pre)] == pre and b[k][:len(pre)] == pre:
+                        return pre + (("cond", self.text(st.test, st, {}), a[k][len(pre):], b[k][len(pre):]),)
+                    return UNKNOWN
+                self.state = {k: merge(k) for k in set(a) | set(b)}
                 continue
             if isinstance(st, (ast.With, ast.Try)):
                 self._run(st.body)
@@ -326,4 +346,6 @@ def show(lay):
             out.append(f"({show(p[1])}) x {p[2]}")
         elif p[0] == "zipflat":
             out.append("interleave(" + ", ".join(p[1]) + ")")
+        elif p[0] == "cond":
+            out.append(f"({show(p[2]) or '[]'} if {p[1]} else {show(p[3]) or '[]'})")
     return " ++ ".join(out)
